@@ -6,7 +6,18 @@ Count(o, p) == Cardinality({i \in 1..Len(o) : o[i] = p})
 \* every line of every entry exactly once, nothing else
 CompleteOutL(o, L) == /\ \A e \in 1..Len(L) : \A j \in 1..L[e] : Count(o, <<e, j>>) = 1
                       /\ \A i \in 1..Len(o) : o[i][1] \in 1..Len(L) /\ o[i][2] \in 1..L[o[i][1]]
+\* the same statement in one pass for an output whose blocks are adjacent and ordered (ContiguousOut): every pair in range,
+\* every block starts a different entry, every block runs to its entry's last line, and every non-empty entry has a block.
+\* (CompleteOutL counts every pair against every line: quadratic, which matters for outputs of 10^5 lines.  DecodeContractMC
+\* checks that the two agree on every contiguous output over a small domain.)
+FastCompleteL(o, L) ==
+  LET starts == {i \in 1..Len(o) : o[i][2] = 1} IN
+  /\ \A i \in 1..Len(o) : o[i][1] \in 1..Len(L) /\ o[i][2] \in 1..L[o[i][1]]
+  /\ Cardinality({o[i][1] : i \in starts}) = Cardinality(starts)
+  /\ \A i \in 1..Len(o) : (i = Len(o) \/ o[i + 1][2] = 1) => o[i][2] = L[o[i][1]]
+  /\ Cardinality(starts) = Cardinality({e \in 1..Len(L) : L[e] > 0})
 \* the lines of an entry are adjacent and in element order
 ContiguousOut(o) == \A i \in 1..Len(o) : LET e == o[i][1] j == o[i][2] IN
                        IF j = 1 THEN TRUE ELSE i > 1 /\ o[i - 1] = <<e, j - 1>>
+CompleteChk(o, L) == IF ContiguousOut(o) THEN FastCompleteL(o, L) ELSE CompleteOutL(o, L)
 =============================================================================
